@@ -293,6 +293,43 @@ theorem potential_lower_bound (shape : List Nat) (h : List Rat) (hv : 0 ≤ vol 
   potential_lower_bound_aux (euclid_isSeminormR shape.length) shape h hv t ht.nonneg ht.total ht.first f U p g hF hc
     (fun c hc' v => euclid_polar shape.length (g c) (hg c hc') v)
 
+/-- **Weak duality with one dual vector per quadrature point** (exact dual of the cost for a rule with rational nodes):
+non-negative weights; `g c q` in the Euclidean unit ball for every cell and quadrature point; on every face the RT0-weighted
+dual field matches the potential: `vol·(Σ_q w_q pt_{q,a} g_{lo,q,a} + Σ_q w_q (1−pt_{q,a}) g_{hi,q,a}) = −area·(p_hi − p_lo)`.
+Then `Σ_c p_c·vol·f_c ≤ cost(U)` for every mass-conserving flux. -/
+theorem potential_lower_bound_rule (shape : List Nat) (h : List Rat) (hv : 0 ≤ vol h) (nq : Nat) (wq : Nat → Rat)
+    (ptq : Nat → List Rat) (hw : ∀ q, q < nq → 0 ≤ wq q) (f U p : Nat → Rat) (g : Nat → Nat → Nat → Rat)
+    (hF : Feasible shape h f U)
+    (hc : ∀ k, k < numFaces shape → vol h *
+        (dualHi nq wq ptq g (conn shape k).1 (faceAxis shape k) + dualLo nq wq ptq g (conn shape k).2 (faceAxis shape k)) =
+        -(area h (faceAxis shape k) * (p (conn shape k).2 - p (conn shape k).1)))
+    (hg : ∀ c, c < numCells shape → ∀ q, q < nq → sumTo shape.length (fun a => g c q a * g c q a) ≤ 1) :
+    ((sumTo (numCells shape) (fun c => p c * (vol h * f c)) : Rat) : ℝ) ≤
+      costR (euclid shape.length) shape h (ruleR nq wq ptq) 1 U :=
+  potential_lower_bound_rule_aux (euclid_isSeminormR shape.length) shape h hv nq wq ptq hw f U p g hF hc
+    (fun c hc' q hq v => euclid_polar shape.length (g c q) (hg c hc' q hq) v)
+
+/-- **… for the corner rule** (CONSTANT_SUBCELL_PROJECTION): a certificate accepted by the driver's exact check `certRuleOK`
+bounds the corner-rule cost of every mass-conserving flux from below — the exact dual of that cost, so the bound can be made
+tight. -/
+theorem potential_lower_bound_corners (shape : List Nat) (h : List Rat) (hv : 0 ≤ vol h) (f U p : Nat → Rat)
+    (g : Nat → Nat → Nat → Rat) (hF : Feasible shape h f U)
+    (hok : certRuleOK shape h (2 ^ shape.length) (cornerW shape.length) (cornerPt shape.length) p g = true) :
+    ((sumTo (numCells shape) (fun c => p c * (vol h * f c)) : Rat) : ℝ) ≤
+      costR (euclid shape.length) shape h (ruleR (2 ^ shape.length) (cornerW shape.length) (cornerPt shape.length)) 1 U := by
+  simp only [certRuleOK, Bool.and_eq_true, List.all_eq_true, List.mem_range, decide_eq_true_eq] at hok
+  refine potential_lower_bound_rule shape h hv _ _ _ (fun q _ => ?_) f U p g hF hok.1 hok.2
+  unfold cornerW; positivity
+
+/-- the model's corner rule has the facts of a rule on the unit cell in dimensions 1–3 (weights `2^-dim`, total 1, first
+moments ½) and lists the `2^dim` corners, each once -/
+theorem corner_rule_model : ∀ dim ∈ [1, 2, 3],
+    sumTo (2 ^ dim) (cornerW dim) = 1 ∧
+    (∀ a ∈ List.range dim, sumTo (2 ^ dim) (fun q => cornerW dim q * (cornerPt dim q).getD a 0) = 1 / 2) ∧
+    ((List.range (2 ^ dim)).map (cornerPt dim)).Nodup ∧
+    ∀ q ∈ List.range (2 ^ dim), (cornerPt dim q).length = dim ∧ ∀ x ∈ cornerPt dim q, x = 0 ∨ x = 1 := by
+  decide +kernel
+
 /-- the driver's exact certificate check is the hypothesis pair of `potential_lower_bound` -/
 theorem certOK_sound (shape : List Nat) (h : List Rat) (p : Nat → Rat) (g : Nat → Nat → Rat)
     (hok : certOK shape h p g = true) :
@@ -320,6 +357,9 @@ example : thinB [1, 1, 3] 2 = true ∧ feasibleB [1, 1, 3] [2, 1/2, 1/4] (fun c 
 /-- a concrete dual certificate on a 2×2 grid (unit voxels): `p = (0, 1, 1, 2)·(1/2)`, `g ≡ (-1/2, -1/2)` -/
 example : certOK [2, 2] [1, 1] (fun c => [0, 1/2, 1/2, 1].getD c 0) (fun _ a => if a < 2 then -1/2 else 0) = true := by
   decide +kernel
+/-- a per-point certificate for the corner rule on a 2×2 grid: `g ≡ (-1/2, -1/2)` at every corner, same potential -/
+example : certRuleOK [2, 2] [1, 1] 4 (cornerW 2) (cornerPt 2) (fun c => [0, 1/2, 1/2, 1].getD c 0)
+    (fun _ _ a => if a < 2 then -1/2 else 0) = true := by decide +kernel
 /-- the rule hypothesis of the first-moment bound is satisfiable by the code's own rules -/
 example : ∃ r, Gen.corners 2 = .ok r ∧ CellRuleFacts r.real 2 := corner_rule_facts 2 (by decide)
 example : ∃ r, Gen.rule 3 2 = .ok r ∧ CellRuleFacts r.toUnitCell.real 3 := gauss_cell_rule_facts (3, 2) (by decide)
